@@ -86,7 +86,7 @@ pub struct Sub<C: Clone + std::fmt::Debug + 'static> {
     pub name: &'static str,
     pub cases_quick: u64,
     pub cases_thorough: u64,
-    pub strategy: fn(Tier) -> BoxedStrategy<C>,
+    pub strategy: Box<dyn Fn(Tier) -> BoxedStrategy<C>>,
     pub to_json: fn(&C) -> JsonValue,
     pub from_json: fn(&JsonValue) -> Option<C>,
     pub check: CheckFn<C>,
